@@ -55,7 +55,8 @@ const c11LiteralCap = 30 * 1024 * 1024
 func c11KnobsOf(sc *core.Scenario) c11Knobs {
 	return c11Knobs{
 		lit0: sc.C("lit0") == 1, openquote: sc.C("openquote") == 1, barelf: sc.C("barelf") == 1,
-		deep: sc.C("deep") == 1, starttls: sc.C("starttls") == 1, done: sc.C("done") == 1,
+		deep: sc.C("deep") == 1, starttls: sc.C("starttls") == 1, done: sc.C("done") == 1, listutf8: sc.C("listutf8") == 1,
+		seqzero: sc.C("seqzero") == 1, partwrap: sc.C("partwrap") == 1,
 		user: "user0", pass: "pass0",
 	}
 }
@@ -72,7 +73,7 @@ func (C11) Generate(r *core.Rand, tier string, idx int) *core.Scenario {
 	}
 	sc.Cfg["nopar"] = r.Intn(2)
 	// input classes that hit recorded defects: each in a small share of the runs
-	for _, k := range []string{"lit0", "openquote", "barelf", "emptytag", "starttls", "done", "firstbad"} {
+	for _, k := range []string{"lit0", "openquote", "barelf", "emptytag", "starttls", "done", "firstbad", "listutf8", "seqzero", "partwrap"} {
 		if r.P(1, 24) {
 			sc.Cfg[k] = 1
 		}
@@ -321,8 +322,8 @@ func (x *c11X) memCheck(where string) {
 			where, heap>>20, x.heap0>>20, x.sent)
 		return
 	}
-	if bound := 64*uint64(x.sent+x.recvd) + slack + uint64(x.lits)*(32<<20); x.allocG > bound {
-		x.e.FailSig("alloc-total", "allocation out of proportion", "%s: %d MiB allocated while serving the garbage connections for %d bytes sent, %d bytes answered and %d accepted literals (bound: 64 x (sent + answered) + 64 MiB + 32 MiB per accepted literal)",
+	if bound := 64*uint64(x.sent) + 256*uint64(x.recvd) + slack + uint64(x.lits)*(32<<20); x.allocG > bound {
+		x.e.FailSig("alloc-total", "allocation out of proportion", "%s: %d MiB allocated while serving the garbage connections for %d bytes sent, %d bytes answered and %d accepted literals (bound: 64 x sent + 256 x answered + 64 MiB + 32 MiB per accepted literal)",
 			where, x.allocG>>20, x.sent, x.recvd, x.lits)
 	}
 }
@@ -493,6 +494,8 @@ type c11G struct {
 
 	// sanitiser state (physical lines)
 	sInq, sEsc, sCR bool
+	sWin            uint32
+	sList           bool
 
 	// the current logical line (bytes outside accepted literals)
 	head     []byte
@@ -517,7 +520,9 @@ type c11G struct {
 	firstBad   bool // the first byte sent was not a tag character
 	nLines     int  // lines completed on this connection
 	stepping   bool // the matcher runs in lock step with the delivery
-	credit     int  // burst mode: continuation requests seen ahead of their line
+	burstLines int
+	bPrevCR    bool
+	credit     int // burst mode: continuation requests seen ahead of their line
 	bLit       int64
 }
 
@@ -604,16 +609,20 @@ func (x *c11X) garbage(a core.Action, step int) {
 	}
 }
 
-// sanitise applies the rules of c11Sanitise with the state carried over from the bytes
-// sent before on this connection.  A trailing CR is held back until its successor is
+// sanitise removes the input classes that are behind knobs from the stream of one
+// connection: a quoted string left open at a line end (knob openquote) and LF without
+// CR / lone CR (knob barelf).  It works on physical lines; what a line is for the server
+// differs when a literal ends inside one, those rare cases are told apart at run time
+// by the diagnosis in unanswered().  A trailing CR is held back until its successor is
 // known (sanFlush releases it).
 func (g *c11G) sanitise(b []byte) []byte {
 	kn := g.x.kn
-	if kn.openquote && kn.barelf {
+	if kn.openquote && kn.barelf && kn.listutf8 {
 		return b
 	}
 	out := make([]byte, 0, len(b)+8)
 	endLine := func(hasCR bool) {
+		g.sWin, g.sList = 0, false
 		if !kn.openquote && g.sInq {
 			if g.sEsc {
 				out = append(out, 'x')
@@ -627,6 +636,17 @@ func (g *c11G) sanitise(b []byte) []byte {
 		g.sInq, g.sEsc = false, false
 	}
 	track := func(c byte) {
+		if !kn.listutf8 {
+			// recorded defect: LIST / LSUB arguments that are not UTF-8 panic in
+			// regexp.MustCompile: behind the keyword, 8-bit bytes are replaced
+			g.sWin = g.sWin<<8 | uint32(c&^0x20)
+			if g.sWin == 0x4c495354 || g.sWin == 0x4c535542 { // "LIST", "LSUB"
+				g.sList = true
+			}
+			if g.sList && c >= 0x80 {
+				c = 'u'
+			}
+		}
 		switch {
 		case g.sInq && g.sEsc:
 			g.sEsc = false
@@ -738,19 +758,33 @@ func (g *c11G) deliver(b []byte) {
 				g.pend = append(g.pend, b[:n]...)
 				g.bLit -= n
 				b = b[n:]
+				g.bPrevCR = false
 				continue
 			}
 			i := bytes.IndexByte(b, '\n')
 			if i < 0 {
 				g.send(b)
 				g.pend = append(g.pend, b...)
+				g.bPrevCR = b[len(b)-1] == '\r'
 				break
 			}
 			seg := b[:i+1]
 			b = b[i+1:]
 			g.send(seg)
 			g.pend = append(g.pend, seg...)
-			if c11LitRe.Match(seg) || c11IdleTailRe.Match(seg) || !bytes.HasSuffix(seg, []byte("\r\n")) || len(g.pend) > 1<<20 {
+			bareLF := !g.bPrevCR
+			if len(seg) >= 2 {
+				bareLF = seg[len(seg)-2] != '\r'
+			}
+			g.bPrevCR = false
+			g.burstLines++
+			// A burst also ends where the server may close the connection on its own
+			// (LOGOUT, the 20th error in a row): when it closes while its command reader
+			// is inside a quoted string of the following line, the reader spins
+			// (recorded defect), and whether it is there at that moment is a race.
+			pt := g.pend[max(0, len(g.pend)-64):]
+			if c11LitRe.Match(pt) || c11IdleTailRe.Match(pt) || c11LogoutTailRe.Match(pt) || bareLF ||
+				g.consecBad+g.burstLines >= 19 || len(g.pend) > 1<<20 {
 				g.flushBurst()
 			}
 		}
@@ -765,6 +799,7 @@ func (g *c11G) flushBurst() {
 	}
 	b := g.pend
 	g.pend = nil
+	g.burstLines = 0
 	g.x.quiesce("deliver")
 	g.pull()
 	g.match(b, false)
@@ -1143,6 +1178,7 @@ func (g *c11G) lineTag() (string, bool) {
 	return p, true
 }
 
+var c11LogoutTailRe = regexp.MustCompile(`(?i)LOGOUT\r\n$`)
 var c11IdleTailRe = regexp.MustCompile(`(?i) IDLE\r\n$`)
 var c11IdleRe = regexp.MustCompile(`(?i)^[^ ]+ IDLE\r\n$`)
 var c11LogoutRe = regexp.MustCompile(`(?i)^[^ ]+ LOGOUT\r\n$`)
@@ -1155,43 +1191,12 @@ func (g *c11G) lineEnd() {
 	x, e := g.x, g.x.e
 	x.lines++
 	e.St.Checks++
-	if p, _ := g.lineTag(); p == "*" && g.state == c11Idle {
-		// the end of an IDLE tagged "*": its completion looks like untagged data
-		e.St.Probes["star_tag_line"]++
-		if len(g.q) > 0 && g.q[0].kind == 1 && g.q[0].tag == "*" {
-			g.pop()
-		}
-		g.resetLine()
-		return
-	} else if p == "*" && g.state == c11Line {
+	if p, _ := g.lineTag(); p == "*" && g.lineLen == len(g.head) {
 		// gluon takes "*" for a tag (the list wildcards are missing from its atom
 		// specials: C10's business) and answers "* OK ...", which no client can tell
-		// from untagged data: such a line is not judged
+		// from untagged data: the connection cannot be judged any further
 		e.St.Probes["star_tag_line"]++
-		if c11LitRe.Match(g.tail) && (g.credit > 0 || (len(g.q) > 0 && g.q[0].kind == 2)) {
-			if g.credit > 0 {
-				g.credit--
-			} else {
-				g.pop()
-			}
-			g.state, g.litN = c11Lit, c11Atoi(c11LitRe.FindSubmatch(g.tail)[1])
-			x.lits++
-			return
-		}
-		if c11IdleRe.Match(g.head) && g.lineLen == len(g.head) && (g.credit > 0 || (len(g.q) > 0 && g.q[0].kind == 2)) {
-			if g.credit > 0 {
-				g.credit--
-			} else {
-				g.pop()
-			}
-			g.state, g.idleTag = c11Idle, "*"
-			return
-		}
-		if len(g.q) > 0 && g.q[0].kind != 2 && ((g.q[0].kind == 1 && g.q[0].tag == "*") || (g.stepping && g.q[0].tag == "")) {
-			g.pop()
-		}
-		g.lastLogout = g.bye && c11LogoutRe.Match(g.head) && g.lineLen == len(g.head)
-		g.resetLine()
+		g.abandon()
 		return
 	}
 	mayCont := c11LitRe.Match(g.tail) || (c11IdleRe.Match(g.head) && g.lineLen == len(g.head))
@@ -1331,6 +1336,10 @@ func (g *c11G) noExtra() {
 // unanswered: a complete line, the server quiescent, nothing came back, connection open.
 func (g *c11G) unanswered() {
 	e := g.x.e
+	e.CheckPanics() // a handler that panicked never answers
+	if e.Failed() {
+		return
+	}
 	line := c11Show(g.head)
 	hadQuote := g.inq
 	// diagnosis 1: does another line end release the answer?  (the server skipped to
@@ -1395,7 +1404,7 @@ func (g *c11G) closedByServer() {
 			e.FailSig("close-lit0", "closed on an empty literal", "connection %s: closed by the server without an answer to the line %s (empty literal)", g.s.Label, line)
 		case g.firstBad && g.nLines == 0:
 			e.FailSig("close-first-line", "closed on a first line that does not start with a tag", "connection %s: closed by the server without an answer to its first line %s", g.s.Label, line)
-		case c11StartTLSRe.Match(g.head):
+		case c11StartTLSRe.Match(g.head) || c11StartTLSRe.Match(g.tail):
 			e.FailSig("close-starttls", "closed on STARTTLS", "connection %s: closed by the server without an answer to %s", g.s.Label, line)
 		default:
 			e.Fail("close-unjustified", "connection %s: closed by the server after %d consecutive BAD (last status %q), pending line %s; no client EOF, no TLS-looking input, no literal over the cap",
@@ -1492,6 +1501,19 @@ func (g *c11G) disconnect(how int, why string) {
 		g.rbuf = nil
 	}
 	g.afterClose()
+}
+
+// abandon gives a connection up without judging it any further.
+func (g *c11G) abandon() {
+	g.q, g.pend = nil, nil
+	g.defuse()
+	if !g.dead {
+		g.conn.ClientCloseWrite()
+		g.x.quiesce("abandon")
+		g.dead = true
+		g.s.C.Dead = true
+	}
+	g.q = nil
 }
 
 // defuse brings a connection that may be inside a quoted string to a line start.
